@@ -31,6 +31,7 @@ int gh_cmp(const void *n1, size_t s1, const void *n2, size_t s2) {
 
 struct pre {
     bool present[NN]; uchar key[NN]; bool red[NN]; size_t dsz[NN]; uchar dat[NN][VSZ];
+    size_t ksz[NN]; uchar key2[NN];        /* key length (1 or 2 bytes, symbolic per node) and second key byte */
     qtreetbl_obj_t *node[NN];
 };
 struct tstate { qtreetbl_t *t; struct pre p; size_t n; int depth0; };
@@ -58,7 +59,7 @@ static int pre_find(const struct pre *p, uchar k) { for (int i = 0; i < NN; i++)
 static int post_valid(qtreetbl_obj_t *n, int lo, int hi, bool parent_red, int depth) {
     if (n == NULL) return 0;
     if (depth == 0) return -1;
-    if (n->name == NULL || n->namesize != 1) return -1;
+    if (n->name == NULL || n->namesize < 1 || n->namesize > 2) return -1;
     int k = *(uchar *)n->name;
     if (!(lo < k && k < hi)) return -1;
     bool r = n->red;
@@ -126,8 +127,18 @@ static struct tstate mk(bool valid_only) {
         QV_IN(uchar, tid);
         if (pres) {                                   /* absent layout positions own no heap objects */
             qtreetbl_obj_t *o = QV_ALLOC(sizeof *o);
-            uchar *nm = QV_ALLOC(1); nm[0] = key;
-            o->name = nm; o->namesize = 1;
+            /* binary keys of differing lengths: the order is decided by the first byte, the rest is payload */
+#if defined(SHAPE) && defined(KEYS_CANON)
+            const bool longkey = ((key >> 1) & 1) != 0;    /* canonical keys: lengths alternate in key order, so every key differs in length from its in-order neighbours */
+#else
+            QV_IN(bool, longkey);                      /* every combination of key lengths occurs */
+#endif
+            size_t ksz = longkey ? 2 : 1;
+            QV_IN(uchar, k2);
+            uchar *nm = longkey ? QV_ALLOC(2) : QV_ALLOC(1);   /* exactly-sized either way */
+            nm[0] = key; if (longkey) nm[1] = k2;
+            o->name = nm; o->namesize = ksz;
+            s.p.ksz[i] = ksz; s.p.key2[i] = k2;
             if (dsz > 0) { uchar *dt = QV_ALLOC(VSZ); dt[0] = d0; dt[1] = d1; o->data = dt; } else o->data = NULL;
             o->datasize = dsz; o->red = red;
             o->tid = tid;
@@ -178,6 +189,7 @@ static void same_as_before(struct tstate *s, uchar P) {
     qtreetbl_obj_t *n = post_find(s->t->root, P, PD);
     QV_ASSERT((i >= 0) == (n != NULL), "C01: operations on one key never change which other keys are present");
     if (i >= 0 && n != NULL) {
+        QV_ASSERT(n->namesize == s->p.ksz[i] && (s->p.ksz[i] < 2 || ((uchar *)n->name)[1] == s->p.key2[i]), "C01: another key keeps its exact bytes and length");
         QV_ASSERT(n->datasize == s->p.dsz[i], "C01: value length under another key is unchanged");
         for (int b = 0; b < VSZ; b++) if ((size_t)b < s->p.dsz[i]) QV_ASSERT(((uchar *)n->data)[b] == s->p.dat[i][b], "C01: value bytes under another key are unchanged");
     }
@@ -282,7 +294,7 @@ void h_get(void) {
     LOCK_BALANCED(s);
     if (s.n == 0) QV_ASSERT(mn == NULL && errno == ENOENT, "C01: find_min on an empty table reports ENOENT");
     else if (mn != NULL) {
-        QV_ASSERT(ns == 1 && pre_find(&s.p, mn[0]) >= 0, "C01: find_min returns a stored key");
+        QV_ASSERT(pre_find(&s.p, mn[0]) >= 0 && ns == s.p.ksz[pre_find(&s.p, mn[0])], "C01: find_min returns a stored key with its exact length");
         if (i >= 0) QV_ASSERT(mn[0] <= P, "C01: find_min returns the least present key");
         QV_ASSERT(mn != (uchar *)s.p.node[pre_find(&s.p, mn[0])]->name, "C12: find_min returns a copy");
         free(mn);
@@ -291,7 +303,7 @@ void h_get(void) {
     LOCK_BALANCED(s);
     if (s.n == 0) QV_ASSERT(mx == NULL, "C01: find_max on an empty table reports not-found");
     else if (mx != NULL) {
-        QV_ASSERT(ns == 1 && pre_find(&s.p, mx[0]) >= 0, "C01: find_max returns a stored key");
+        QV_ASSERT(pre_find(&s.p, mx[0]) >= 0 && ns == s.p.ksz[pre_find(&s.p, mx[0])], "C01: find_max returns a stored key with its exact length");
         if (i >= 0) QV_ASSERT(mx[0] >= P, "C01: find_max returns the greatest present key");
         free(mx);
     }
@@ -344,7 +356,7 @@ void h_walk(void) {
         int e = pre_kth(&s.p, i);
         QV_ASSERT(cur.name != NULL && (cur.data != NULL || s.p.dsz[e] == 0), "C15: a walk step never claims success with a missing key or value");
         if (cur.name == NULL) goto done;
-        QV_ASSERT(cur.namesize == 1 && *(uchar *)cur.name == s.p.key[e], "C03: walk returns the keys exactly once each in strictly ascending order");
+        QV_ASSERT(cur.namesize == s.p.ksz[e] && *(uchar *)cur.name == s.p.key[e], "C03: walk returns the keys exactly once each in strictly ascending order");
         QV_ASSERT(cur.datasize == s.p.dsz[e], "C03: walk returns the current value size");
         if (cur.data != NULL) for (int b = 0; b < VSZ; b++) if ((size_t)b < s.p.dsz[e]) QV_ASSERT(((uchar *)cur.data)[b] == s.p.dat[e][b], "C03: walk returns the current value bytes");
         if (newmem) { free(cur.name); free(cur.data); }
@@ -377,7 +389,7 @@ void h_nearest(void) {
     INV_tree(&s, s.n); same_as_before(&s, P);
     if (s.n == 0) { QV_ASSERT(o.name == NULL && errno == ENOENT, "C04: search on an empty table reports not-found"); QV_REACH("nearest empty"); }
     else if (o.name != NULL) {
-        QV_ASSERT(o.namesize == 1 && *(uchar *)o.name == s.p.key[want], "C04: search returns the equal key, else the greatest smaller key, else the smallest key");
+        QV_ASSERT(o.namesize == s.p.ksz[want] && *(uchar *)o.name == s.p.key[want], "C04: search returns the equal key, else the greatest smaller key, else the smallest key");
         QV_ASSERT(o.datasize == s.p.dsz[want], "C04: search returns the value size of that key");
         QV_ASSERT(o.data != NULL || s.p.dsz[want] == 0, "C15: a search never claims success with a missing value");
         if (newmem) { free(o.name); free(o.data); }
